@@ -55,9 +55,9 @@ histories executed on ONE `Modules` value, that this extra state is transparent:
                              | (Modules.Read puts the directory of a file on the   | path / name, AddPath, files that
                              | path before Parse sees the text: a roll back of one | appear, imports found through the
                              | of the two only is seeded change C18-m21; the        | path only, vs the same history
-                             | unchanged tree rolls back neither: known finding    | without the refused loads: path,
-                             | D18-P1, tagged narrowly); outside the machine, Go   | later offers, errors, trees, lookups
-                             | vs Go only                                          | after every operation
+                             | tree used to roll back neither: D18-P1, found by    | without the refused loads: path,
+                             | the file histories, repaired in /repo 2488dfd);     | later offers, errors, trees, lookups
+                             | outside the machine, Go vs Go only                  | after every operation
   incremental_eq_batch       | the type generation across a run that could NOT     | FILE histories: a run with a missing
                              | link (memoised "unknown prefix" must not survive:   | import, then the path grows / the
                              | seeded change C09-m22)                              | file appears, a run = a fresh set's
@@ -65,7 +65,7 @@ histories executed on ONE `Modules` value, that this extra state is transparent:
                              | by ToEntry before a Process (D45), rpc input/output | between operations; later dumps
                              | created lazily by Find                              | must equal batch and model
 
-(D30-D32, D44-D46, D55: the ways in which the unchanged tree was NOT transparent; all repaired in
+(D30-D32, D44-D46, D55, D18-P1: the ways in which the unchanged tree was NOT transparent; all repaired in
 /repo, the witnesses are corpus/C18/*.json.  DESIGN.md section 8, known_findings.txt.)
 
 PROVED SINCE (proof round 5, Props/C18Cached.lean): the layer between this machine and the Go value.
